@@ -262,6 +262,13 @@ def run_check(pid, tier, seed):
             except Exception as e:
                 problems.append(f"REAL-world replay failed: {e}")
 
+    # Layer B (one inductive step from a symbolic pre-state) is advisory: its counterexamples may start in
+    # unreachable states, so they are never verdicts (DESIGN.md §6)
+    layer_b = [v for v in confirmed if ".step" in v["label"]]
+    confirmed = [v for v in confirmed if ".step" not in v["label"]]
+    for v in layer_b[:3]:
+        problems.append(f"UNCONFIRMED-CEX (one-step induction, pre-state may be unreachable) clause {v['label']} "
+                        f"inputs={json.dumps(_jsonable(v.get('inputs')))[:600]}")
     violations_out = []
     rdir = os.path.join(os.environ.get("VERIF_OUT_DIR", VERIF), "replays", pid)
     for v in confirmed:
@@ -364,6 +371,8 @@ def run_check(pid, tier, seed):
     print(f"[{pid} {tier}] paths={agg['paths']} branches={agg['branches']} queries={agg['queries']} "
           f"solver={agg['solver_s']:.1f}s obligations={agg['obligations']} discharged={agg['discharged']} "
           f"undecided={len(agg['undecided'])} validated={validated} wall={wall:.1f}s")
+    if agg["undecided"]:
+        print(f"  undecided (solver unknown, not claimed): {_jsonable(agg['undecided'][:6])}")
     if agg["viol_counts"]:
         print(f"  solver counterexamples by clause (before replay): {agg['viol_counts']}")
     for k in known_hit.values():
